@@ -21,7 +21,11 @@ Inductive listener := LPlain | LShaped | LTls | LShapedTls.
   (* plain TCP, trafficshape.Listener, tls.NewListener, trafficshape.Listener over tls.NewListener *)
 Inductive tunnel := TunTls | TunPlain | NoTunnel.     (* what follows the CONNECT 200; NoTunnel = transparent TLS *)
 Inductive form := FOrigin | FAbsHttp | FAbsHttps | FNoHost.
-Record inner := mkInner { i_form : form; i_hijack : bool }.
+(* what the request modifier does to the session through its public API
+   while handling this request (after having looked at it): nothing,
+   Session.MarkInsecure(), Session.MarkSecure(), Session.Set/Get *)
+Inductive mutator := MNone | MInsecure | MSecure | MValues.
+Record inner := mkInner { i_form : form; i_hijack : bool; i_mut : mutator }.
 
 (* ---------------- observations ---------------- *)
 
@@ -70,7 +74,15 @@ Definition stops (q : inner) : bool :=
 (* handle 442-585 for a non-CONNECT request read while [ck] is the conn
    argument.  [ctls] = the client speaks TLS on this connection (decides
    whether bytes written to the hijacked conn reach it intact). *)
+Definition apply_mut (m : mutator) (st : sess) : sess :=
+  match m with
+  | MInsecure => mkSess false (sconn st)
+  | MSecure => mkSess true (sconn st)
+  | MNone | MValues => st
+  end.
+
 Definition handle_one (ck : conn_kind) (ctls : bool) (st : sess) (q : inner) : sess * rfields :=
+  let am := apply_mut (i_mut q) in
   let tlsc := is_tls ck in                                       (* 461-476: ConnectionState() is taken
                                                                     AFTER readRequest returned, so the
                                                                     handshake (lazy on a transparent TLS
@@ -80,12 +92,12 @@ Definition handle_one (ck : conn_kind) (ctls : bool) (st : sess) (q : inner) : s
   let sch := if secure st1 then Https else Http in               (* 478-482 *)
   let h := form_host (i_form q) in
   if i_hijack q
-  then (st1, mkF sch h (secure st1) tlsc 0 UpNone None (Some (sconn st1))
+  then (am st1, mkF sch h (secure st1) tlsc 0 UpNone None (Some (sconn st1))
                  (Some (Bool.eqb (is_tls (sconn st1)) ctls)))
   else
     match h with
-    | HEmpty => (st1, mkF sch h (secure st1) tlsc 0 UpNone (Some 502) None None)   (* transport: no host *)
-    | _ => (st1, mkF sch h (secure st1) tlsc 0
+    | HEmpty => (am st1, mkF sch h (secure st1) tlsc 0 UpNone (Some 502) None None)   (* transport: no host *)
+    | _ => (am st1, mkF sch h (secure st1) tlsc 0
                      (match sch with Https => UpTls | Http => UpPlain end) (Some 200) None None)
     end.
 
